@@ -183,9 +183,11 @@ def check(ld, n, failing, plan, site, with_key, foreign_at, res, foreign_type=Fo
     try:
         if warn:
             c = ds.catch(warn=True) if exceptions is None else \
-                ds.catch(exceptions, warn=True)
+                (ds.catch(exceptions, True) if n % 2 else
+                 ds.catch(exceptions=exceptions, warn=True))
         else:
-            c = ds.catch() if exceptions is None else ds.catch(exceptions)
+            c = ds.catch() if exceptions is None else \
+                (ds.catch(exceptions) if n % 2 else ds.catch(exceptions=exceptions))
         c = through(ld, c, path)
         it = iter(c.items()) if with_key else iter(c)
     except BaseException as e:
@@ -303,7 +305,8 @@ def check_equivalence(ld, n, failing, res, style='bool'):
 
     obs = {}
     for name, mk in (('lazy', lambda: src.filter(keep)),
-                     ('eager', lambda: src.filter(keep, lazy=False)),
+                     ('eager', lambda: src.filter(keep, False) if n % 2
+                      else src.filter(filter_fn=keep, lazy=False)),
                      ('catch', lambda: src.map(raise_unless).catch())):
         try:
             d = mk()
